@@ -93,6 +93,12 @@ impl Answers for NoMembers<'_> {
     fn method_ref(&self, m: &MemberRef) -> conv::Ans<MemberRef> { Ok(MemberRef { owner: self.0.class_any(&m.owner)?, name: m.name.clone(), desc: self.0.method_desc(&m.desc)? }) }
 }
 
+/// records a violation; the (large) detail is only built when this instance would be the one that is kept
+fn viol(rep: &mut Report, sig: String, detail: impl FnOnce() -> Value) {
+    let need = match rep.violations.get(&sig) { Some(v) => (rep.cur.0.as_str(), rep.cur.1) < (v.workload.as_str(), v.case), None => true };
+    rep.violation(sig, if need { detail() } else { Value::Null });
+}
+
 #[derive(Default)]
 struct Outcome { renamed_kinds: BTreeSet<&'static str>, renamed_class_refs: u64, renamed_member_refs: u64, classes_compared: u64, classes_equal: u64 }
 
@@ -242,10 +248,10 @@ fn go<const N: usize, J: Jar>(rep: &mut Report, job: &Job, q: &Mappings<N, ()>, 
                 outcome.classes_compared += 1; rep.count("classes.compared");
                 let findings = compare::compare(m, &expected, &observed, 200);
                 if findings.is_empty() { outcome.classes_equal += 1; rep.count("classes.equal_to_expectation"); }
-                for f in findings { rep.violation(f.signature.clone(), cdetail(json!({"at": f.at, "expected": f.expected, "observed": f.observed, "original": f.original, "output_hex": hex(&o.data)}))); }
+                for f in findings { viol(rep, f.signature.clone(), || cdetail(json!({"at": f.at, "expected": f.expected, "observed": f.observed, "original": f.original, "output_hex": hex(&o.data)}))); }
                 // tree level (frames)
                 match trees.get(&want) {
-                    Some(t) => { rep.count("trees.compared"); for f in compare::compare_frames(m, &expected, t, 50) { rep.violation(f.signature.clone(), cdetail(json!({"at": f.at, "expected": f.expected, "observed": f.observed, "original": f.original}))); } }
+                    Some(t) => { rep.count("trees.compared"); for f in compare::compare_frames(m, &expected, t, 50) { viol(rep, f.signature.clone(), || cdetail(json!({"at": f.at, "expected": f.expected, "observed": f.observed, "original": f.original}))); } }
                     None => rep.count("trees.not_available"),
                 }
                 // informational: Signature strings that still mention a class the remapper renames (not judged)
@@ -403,6 +409,8 @@ fn main() {
         let sc = scratch.clone();
         let h = std::thread::Builder::new().stack_size(64 << 20).spawn(move || { self_checks(); end_to_end_canary(&sc); }).expect("spawn self-check thread");
         if h.join().is_err() { eprintln!("HARNESS-ERROR self-checks panicked"); std::process::exit(3); }
+        rep.note(format!("self-checks and canaries took {:.1}s", ctx.elapsed_s()));
+        if std::env::var("C07_TIMING").is_ok() { eprintln!("C07_TIMING self-checks {:.1}s", ctx.elapsed_s()); }
     }
 
     let account = |rep: &mut Report, job: &Job, o: &Outcome| {
@@ -419,7 +427,19 @@ fn main() {
         }
     };
 
-    let n = ctx.tier.pick(700, 12_000);
+    // the corpus first: it is small, and a time budget that ends generation early must not starve it
+    let corpus = cf::corpus::load(&ctx.verif_dir);
+    let mut groups: BTreeMap<String, Vec<(String, Vec<u8>)>> = BTreeMap::new();
+    for (path, bytes) in corpus { let g = path.split('/').next().unwrap_or("").to_string(); groups.entry(g).or_default().push((path, bytes)); }
+    let nc = if groups.is_empty() { 0 } else { ctx.tier.pick(40, 2_500) };
+    run_cases(&ctx, &replay, &mut rep, "corpus", nc, |rng, rep, case| {
+        let job = corpus_job(rng, &groups, &scratch, case);
+        let o = run_job(rep, &job, Wrong::No);
+        rep.count("jars.corpus");
+        account(rep, &job, &o);
+    });
+    if std::env::var("C07_TIMING").is_ok() { eprintln!("C07_TIMING corpus done {:.1}s", ctx.elapsed_s()); }
+    let n = ctx.tier.pick(2_000, 40_000);
     let max_classes = ctx.tier.pick(10, 40);
     run_cases(&ctx, &replay, &mut rep, "generated", n, |rng, rep, case| {
         let job = generated_job(rng, if case % 8 == 7 { max_classes } else { 10.min(max_classes) }, &scratch, case);
@@ -428,17 +448,8 @@ fn main() {
         account(rep, &job, &o);
     });
 
-    let corpus = cf::corpus::load(&ctx.verif_dir);
-    let mut groups: BTreeMap<String, Vec<(String, Vec<u8>)>> = BTreeMap::new();
-    for (path, bytes) in corpus { let g = path.split('/').next().unwrap_or("").to_string(); groups.entry(g).or_default().push((path, bytes)); }
-    let nc = if groups.is_empty() { 0 } else { ctx.tier.pick(60, 1_000) };
-    run_cases(&ctx, &replay, &mut rep, "corpus", nc, |rng, rep, case| {
-        let job = corpus_job(rng, &groups, &scratch, case);
-        let o = run_job(rep, &job, Wrong::No);
-        rep.count("jars.corpus");
-        account(rep, &job, &o);
-    });
     let _ = std::fs::remove_dir_all(&scratch);
+    if std::env::var("C07_TIMING").is_ok() { eprintln!("C07_TIMING generated done {:.1}s", ctx.elapsed_s()); }
 
     let mut meta = Meta::new("exploration", "jars of 1..10 (every 8th: up to 40 in thorough) generated classes (cf::gen, references re-pointed at members declared inside the jar, in super types inside and outside the jar; inner-class / nest / sealed records between jar classes; overloads, same-named fields, enum constants, lambda-shaped call sites) plus resources and directories, and jars of javac corpus groups; mapping sets keyed by the jar's own classes and members (partial, package moves, inner classes following their outer class, identity entries, 2-cycles, 2 or 3 namespaces in every direction); five jar front ends; a jar is non-trivial if at least one class-name answer and one member-name answer of the remapper differ from the original; distinct = distinct (scenario tags, set of position kinds renamed)")
         .assume("the expectation is defined through the real remapper (the property says: what the remapper answers); a defect of the remapper itself is C06's subject")
